@@ -20,6 +20,9 @@ RULE_OWNER = {
     # (... nor the value of the node the process's own updates go to, C06)
     'view': ['C07', 'C04', 'C06'], 'zview': ['C07', 'C05', 'C04', 'C06'], 'seen': ['C05'],
     'leaves': ['C09'],
+    # (an update that is dropped was not 'applied exactly once' either: C01 owns no
+    #  store histories, C05 and C10 do)
+    'bystander': ['C05', 'C10'],
     'update_object': ['C09'],
 }
 
